@@ -245,11 +245,28 @@ theorem sr_execHandlerTok (a st : St) (op : BOp) (h : SR a st) : SR a (execHandl
   | render b => exact h
   | async b => exact h
 
-theorem sr_runHandler {a st : St} (h : SR a st) (e hb : Nat) : SR a (runHandler st e hb) := by
-  unfold runHandler
+theorem sr_runHandlerOld {a st : St} (h : SR a st) (e hb : Nat) : SR a (runHandlerOld st e hb) := by
+  unfold runHandlerOld
   simp only
   refine SR.react (st := List.foldl execHandlerTok _ _) (sr_foldl _ sr_execHandlerTok _ ?_) rfl
   exact SR.react (st := st.lift (logEv · (Ev.h e))) (h.prim (CorePrim.logEv _ _ rfl)) rfl
+
+theorem sr_runHandlerNew {a st : St} (h : SR a st) (e o hb : Nat) : SR a (runHandlerNew st e o hb) := by
+  unfold runHandlerNew
+  simp only
+  have key : ∀ (body : List BOp) (S0 : St), S0.toCore = logEv (pushCur st.toCore o) (Ev.h e) →
+      CoreReach a.toCore (popCur (List.foldl execHandlerTok S0 body).toCore 1) := by
+    intro body S0 h0
+    refine CR.popCur (sr_foldl _ sr_execHandlerTok body (a := a) (st := S0) ?_) 1
+    unfold SR; rw [h0]
+    exact CR.logEv (CR.pushCur h _) _ rfl
+  exact key _ _ rfl
+
+theorem sr_runHandler {a st : St} (h : SR a st) (e o hb : Nat) : SR a (runHandler st e o hb) := by
+  unfold runHandler
+  split
+  · exact sr_runHandlerOld h e hb
+  · exact sr_runHandlerNew h e o hb
 
 theorem sr_endTask {a st : St} (h : SR a st) (e : Nat) : SR a (endTask st e) := by
   unfold endTask
@@ -268,7 +285,7 @@ theorem sr_afterRun {a st : St} (h : SR a st) (e : Nat) (er : EffRec) : SR a (af
   unfold afterRun
   split
   · split
-    · exact sr_runHandler h _ _
+    · exact sr_runHandler h _ _ _
     · exact h
   · exact h
 
